@@ -413,10 +413,15 @@ CLAIMS = {
          "reproduced by the ANF program, for every sufficiently large fuel, under either go schedule. Links: a NEW lock-step simulation of mono "
          "under the full Sem (closures, renamed instances and type instances; Lemmas/PipeMonoSim.lean), lift_preserves_partial (C08), "
          "anf_run_preserves_partial (C09). pipeline_preserves_partial: the same from the Mono program on, for programs with ETraitCall (whose "
-         "Core->Mono link needs type soundness). end_to_end_partial continues to Go.Sem of the emitted file with go/compile.rs (CompileSim) and "
-         "the file-level lifting of dce_preserves (DceFileSim) as explicit hypotheses (parameters, not axioms). Tie: the composite model on the "
-         "REAL Core dump equals the REAL Mono, Lift and ANF dumps for every corpus and generated program; the evidence reports how many real "
-         "programs lie inside each fragment and why the others do not.",
+         "Core->Mono link needs type soundness). END TO END (second stage): core_to_emitted_go_preserves - for every Core program in the decidable "
+         "InEmitFragment, every definite Sem run of main is the Go.Sem outcome of the EMITTED Go file (whole model pipeline: mono, lift, anf, "
+         "re-annotation, go_file incl. eliminate_dead_vars), with NO hypothesis besides the fragment: the go/compile.rs link is "
+         "GoCompile.compile_preserves_run, the DCE link is the new Dce.dce_file_preserves (file-level lifting of dce_preserves via a Go.Sem file "
+         "congruence and a lock-step pruning theorem; Go.Sem.zero made total, callG given Go's arity rule). core_to_go_preserves is the same "
+         "up to the file before DCE. Tie: the composite model on the "
+         "REAL Core dump equals the REAL Mono, Lift and ANF dumps for every corpus and generated program; the whole-pipeline model on the REAL Core dump + REAL GlobalGoEnv dump equals the REAL emitted "
+         "Go AST; the evidence reports how many real programs lie inside each fragment (InPipeFragment, InLiftAnfFragment, InE2EFragment, "
+         "InEmitFragment) and why the others do not.",
     design_ref="§5 C01",
     note="Trusted: Sem/Go.Sem as definitions (Go.Sem reproduces all recorded corpus outputs), harness IR serialisers, the generator's coverage. "
          "The Go back end has its own model (Model/GoCompile.lean, exact tie `gv gocomp` on every run) and, for the stage-(a) fragment, a proved "
